@@ -515,12 +515,15 @@ pub struct MtOpts {
     pub late_ms: u64,
     /// every worker iteration sleeps this long (0 = none): keeps the process alive for an attach
     pub worker_sleep_us: u64,
+    /// the workers end in an endless loop that lives in an anonymous executable mapping (a pc
+    /// that belongs to no file, like JIT code or the vDSO)
+    pub anon_loop: bool,
 }
 
 /// A libc-free multi-threaded program (raw clone): `workers` threads each call `bump` `iters`
 /// times while main calls `mwork` `main_iters` times, then joins and prints the counter.
 pub fn generate_mt(workers: usize, iters: u64, main_iters: u64, spin: u64) -> Program {
-    generate_mt_opts(&MtOpts { workers, iters, main_iters, spin, late_workers: 0, late_ms: 0, worker_sleep_us: 0 })
+    generate_mt_opts(&MtOpts { workers, iters, main_iters, spin, late_workers: 0, late_ms: 0, worker_sleep_us: 0, anon_loop: false })
 }
 
 pub fn generate_mt_opts(o: &MtOpts) -> Program {
@@ -528,6 +531,14 @@ pub fn generate_mt_opts(o: &MtOpts) -> Program {
     let mut s = Src::new();
     s.raw(SIGNAL_PRELUDE);
     s.raw(THREAD_PRELUDE);
+    s.l("#[inline(never)]", None);
+    s.l("fn sys6(n: isize, a: isize, b: isize, c: isize, d: isize, e: isize, f: isize) -> isize {", None);
+    s.l("    let r: isize;", None);
+    s.l("    unsafe {", None);
+    s.l("        core::arch::asm!(\"syscall\", inlateout(\"rax\") n => r, in(\"rdi\") a, in(\"rsi\") b, in(\"rdx\") c, in(\"r10\") d, in(\"r8\") e, in(\"r9\") f, out(\"rcx\") _, out(\"r11\") _, options(nostack));", None);
+    s.l("    }", None);
+    s.l("    r", None);
+    s.l("}", None);
     s.l("#[inline(never)]", None);
     s.l("fn nap(us: u64) {", None);
     s.l("    let ts = [us / 1000000, (us % 1000000) * 1000];", None);
@@ -549,6 +560,15 @@ pub fn generate_mt_opts(o: &MtOpts) -> Program {
     }
     s.l("        i += 1;", Some("worker.inc"));
     s.l("    }", None);
+    if o.anon_loop {
+        s.l("    let page = sys6(9, 0, 4096, 7, 0x22, -1, 0) as *mut u8;", Some("worker.mmap"));
+        s.l("    unsafe {", None);
+        s.l("        core::ptr::write_volatile(page, 0xEB);", None);
+        s.l("        core::ptr::write_volatile(page.add(1), 0xFE);", None);
+        s.l("        let f: extern \"C\" fn() = core::mem::transmute(page);", None);
+        s.l("        f();", Some("worker.anon"));
+        s.l("    }", None);
+    }
     s.l("}", Some("worker.end"));
     s.l("#[inline(never)]", None);
     s.l("fn mwork(x: u64) -> u64 {", None);
@@ -580,8 +600,10 @@ pub fn generate_mt_opts(o: &MtOpts) -> Program {
             s.l(&format!("    spawn({w}, worker, {w});"), Some(&format!("main.spawn{w}")));
         }
     }
-    for w in 0..workers + o.late_workers {
-        s.l(&format!("    join({w});"), Some(&format!("main.join{w}")));
+    if !o.anon_loop {
+        for w in 0..workers + o.late_workers {
+            s.l(&format!("    join({w});"), Some(&format!("main.join{w}")));
+        }
     }
     s.l("    emit(COUNTER.load(core::sync::atomic::Ordering::SeqCst));", Some("main.emit"));
     s.l("    emit(hits());", Some("main.hits"));
@@ -590,6 +612,9 @@ pub fn generate_mt_opts(o: &MtOpts) -> Program {
     let mut name = format!("mt_w{workers}_i{iters}_m{main_iters}_s{spin}");
     if o.late_workers > 0 || o.worker_sleep_us > 0 {
         name = format!("{name}_l{}_{}_z{}", o.late_workers, o.late_ms, o.worker_sleep_us);
+    }
+    if o.anon_loop {
+        name = format!("{name}_anon");
     }
     Program { name: name.clone(), src_file: format!("{name}.rs"), source: s.text, lines: s.marks, functions: vec!["main".into(), "emit".into(), "bump".into(), "worker".into(), "mwork".into(), "spawn".into(), "join".into()] }
 }
